@@ -177,6 +177,9 @@ func (s *mstate) predict(e mevent, c mcfg) mpred {
 		if f != nil {
 			return inuse
 		}
+		if c.Dotu && e.Uid != 0 && e.Uid != 7 && e.Uid != 8 {
+			return mpred{verdict: mustRefuse, why: "unknown user"}
+		}
 		if e.Afid != wire.NOFID {
 			a := s.fids[e.Afid]
 			if a == nil {
